@@ -113,6 +113,22 @@ class PathEnumerator(object):
             return
         elif isinstance(s, ast.Raise):
             raise _Return(Sym("raise", node=s))
+        elif isinstance(s, (ast.For, ast.While)) and not any(
+                isinstance(x, (ast.Raise, ast.Return, ast.Try, ast.With))
+                for b in s.body + s.orelse for x in ast.walk(b)):
+            # a loop that can neither leave the function nor raise explicitly: whatever it
+            # assigns is unknown afterwards (a later decision on such a name is refused by the
+            # atomizer), everything else is untouched
+            for x in ast.walk(s):
+                tgts = []
+                if isinstance(x, ast.Assign):
+                    tgts = x.targets
+                elif isinstance(x, (ast.AugAssign, ast.AnnAssign, ast.For)):
+                    tgts = [x.target]
+                for t in tgts:
+                    for e in ([t] if not isinstance(t, (ast.Tuple, ast.List)) else t.elts):
+                        key = e.id if isinstance(e, ast.Name) else unparse(e)
+                        self.env[key] = Sym("expr", node=s.iter if isinstance(s, ast.For) else s.test)
         else:
             raise AnalysisError(
                 "unmodelled statement %s in contextualiser %s (loop or dynamic construct)"
